@@ -8,11 +8,11 @@ StrAlphabet == {0, 97, 195, 169, 226, 130, 172, 240, 128, 255}     \* NUL, 'a', 
 AlphaSeq == <<0, 97, 195, 169, 226, 130, 172, 240, 128, 255>>
 Pow10(n) == LET RECURSIVE P(_) P(i) == IF i = 0 THEN 1 ELSE 10 * P(i - 1) IN P(n)
 StrOf(len, code) == [i \in 1..len |-> AlphaSeq[((code \div Pow10(i - 1)) % 10) + 1]]
-\* longer texts: k letters, one byte x of interest (control characters, DEL, a lone continuation byte), the NUL -
+\* longer texts: k letters, one byte x of interest (control characters, white space, DEL, a lone continuation byte), the NUL -
 \* every position of the NUL relative to an 8-byte group, with bytes before it that word-at-a-time tricks confuse with it
 LongStr(k, x) == [i \in 1..k |-> 97 + (i % 26)] \o <<x, 0>>
 StrParamsLong == { [kind |-> kd, len |-> k + 2, code |-> 0, m |-> k + 2, s |-> LongStr(k, x)]
-                   : kd \in StrKinds, k \in 0..17, x \in {1, 2, 127, 128, 255} }
+                   : kd \in StrKinds, k \in 0..17, x \in {1, 2, 9, 10, 32, 127, 128, 255} }
 StrBytes(p) == IF "s" \in DOMAIN p THEN p.s ELSE StrOf(p.len, p.code)
 StrParams == UNION { { [kind |-> k, len |-> n, code |-> cd, m |-> m] : k \in StrKinds, cd \in 0..(Pow10(n) - 1), m \in 0..n } : n \in 0..MaxStr }
 StrParamsAll == StrParams \cup StrParamsLong
